@@ -22,6 +22,11 @@ func init() {
 
 func checkC12(p *Prog, l *Ledger) {
 	q := regexp.QuoteMeta
+	// a property read or write happens where it is written, whatever surrounds it: nothing outside eval's dispatch looks
+	// at the syntactic kind of an expression (to skip a read whose value is not used, say — a read of an absent property
+	// is an error wherever it stands), and every clause evaluates its operands on every successful path (C14's rule)
+	checkNodeKindTests(p, l, "C12/S0-evaluated-where-written")
+	l.AsOnly(map[string]string{"C14/S1-order-once": "C12/S0-evaluated-where-written/operands"}, func() { checkC14(p, l) })
 	OBJ, VAL, NAME := q("ev[e.Object].val"), q("ev[e.Value].val"), q("e.Property.Lexeme")
 	errTail := ` ; rterror\(obj, .*\) ; return\(nil, obj\)`
 	if ws, ok, _ := clauseWordsFor(p, "*ast.PropertyAccess"); !ok {
